@@ -97,9 +97,9 @@ class Client:
         self.root = world.envelope(INITIAL, [1], r)
         self.path = None
 
-    def offer(self, env):
+    def offer(self, env, encoding="utf-8"):
         snapshot = copy.deepcopy(self.root)
-        out, exc, _ = lib.call(self.auth.verify_root, self.root, env)
+        out, exc, _ = lib.call(self.auth.verify_root, self.root, env, encoding=encoding)
         mutated = twin_canon(self.root) != twin_canon(snapshot)
         if out == "accept":
             self.root = env
@@ -122,7 +122,7 @@ class CliClient(Client):
         self.cli = lib.cct("cli")
         self.n = 0
 
-    def offer(self, env):
+    def offer(self, env, encoding="utf-8"):
         self.n += 1
         tp = os.path.join(self.dir, "cli-trusted-%d.json" % os.getpid())
         op = os.path.join(self.dir, "cli-offered-%d.json" % os.getpid())
@@ -138,7 +138,7 @@ class CliClient(Client):
             except SystemExit as e:
                 rc = e.code
             status.append(0 if rc is None else rc)
-        out, exc, _ = lib.call(go)
+        out, exc, _ = lib.call(go, encoding=encoding)
         if out == "accept":
             out = "accept" if status and status[0] == 0 else f"exit:{status[0] if status else '?'}"
         with open(tp, "rb") as f:
@@ -182,7 +182,12 @@ def replay_behaviour(hist, seed, workdir, idx, client="api"):
                 env["signatures"][gamma.junk_name(r)] = {"signature": "0" * 128}
             if a == "offer_malformed":
                 env = malform(env, r)
-            out, exc, mutated = cl.offer(env)
+            if r.random() < 0.4 and isinstance(env, dict) and isinstance(env.get("signed"), dict):
+                env["signed"] = gamma.share_equal_parts(env["signed"], cl.root, r, 0.8)      # the offered root shares equal parts with the trusted one
+            dead = "accept" not in ev["allowed"] and r.random() < 0.2      # offers that must not be accepted: sometimes with a stdout on which every write fails
+            out, exc, mutated = cl.offer(env, encoding=r.choice(lib.BROKEN_STDOUTS)) if dead else cl.offer(env)
+            if dead and out != "accept":
+                out = ev["allowed"][0]          # rejected one way or another: with a dead stdout only the acceptance is judged
             n_exec += 1
             try:
                 after = cl.w.alpha(cl.root)
